@@ -13,7 +13,7 @@ import ast, itertools, time
 import z3
 from . import loader
 from .contract import Verdict
-from .symexec import Exec, Unsupported, Refuted, State, Obj, SymRange, Unknown
+from .symexec import Exec, Unsupported, Refuted, State, Obj, SymRange, Unknown, Obligation
 from .libz import LIB_Z, ZArr, ZScal, is_z, zint, oblige, fresh_int, z_getitem, z_setitem, z_len, z_binop, z_compare
 from .smt import Solver, check_unsat
 
@@ -122,6 +122,19 @@ def K_qr(ex, st, node, args, kw):
     st.pc.append(z3.And(D >= 1, D <= zint(M.shape[0]), D <= zint(M.shape[1])))
     return (ZArr((M.shape[0], D)), ZArr((D, M.shape[1])), QL(D))
 
+def _numiter_forwarded(ex, st, node, args, kw, pos, name):
+    """the requested number of local Krylov iterations reaches every local step ("for any number of local Krylov iterations")"""
+    req = st.env.get('numiter_lanczos')
+    if req is None:
+        return
+    got = args[pos] if len(args) > pos else kw.get('numiter')
+    if got is None or not (is_z(got) or isinstance(got, int)):
+        ex.obligations.append(Obligation('callee-pre', f'{name}: the caller passes its numiter_lanczos on', node.lineno, False,
+                                         'the local step is called without the requested iteration count (a default of the helper would be used) (needs native confirmation)'))
+        return
+    oblige(ex, st, node, 'callee-pre', f'{name}: the caller passes its numiter_lanczos on', zint(got) == zint(req))
+
+
 def K_local_ham_step(ex, st, node, args, kw):
     """_local_hamiltonian_step / _minimize_local_energy: L (a, w, a'), R (b, v, b'), W (e, d, w, v), A (d, a, b) -> same shape as A
     (the lambda passed to the Krylov routine maps vectors of length |A| to vectors of length |A| exactly under these conditions)"""
@@ -136,6 +149,7 @@ def K_local_ham_step(ex, st, node, args, kw):
              ('L.shape[1] == W.shape[2]', zint(Lb.shape[1]) == zint(W.shape[2])), ('R.shape[1] == W.shape[3]', zint(Rb.shape[1]) == zint(W.shape[3]))]
     for txt, f in conds:
         oblige(ex, st, node, 'callee-pre', f'{name}: {txt}', f)
+    _numiter_forwarded(ex, st, node, args, kw, 4 if name.endswith('_minimize_local_energy') else 5, name)
     if name.endswith('_minimize_local_energy'):
         return (ZScal('real'), ZArr(A.shape))
     return ZArr(A.shape)
@@ -147,6 +161,7 @@ def K_local_bond_step(ex, st, node, args, kw):
              ('L.shape[1] == R.shape[1]', zint(Lb.shape[1]) == zint(Rb.shape[1]))]
     for txt, f in conds:
         oblige(ex, st, node, 'callee-pre', f'_local_bond_step: {txt}', f)
+    _numiter_forwarded(ex, st, node, args, kw, 4, '_local_bond_step')
     return ZArr(C.shape)
 
 def K_step_left(ex, st, node, args, kw):
@@ -479,8 +494,8 @@ def verify_one(spec):
     return out
 
 
-CONTRACTS = {'tdvp1': (tdvp_singlesite_contract, ('C08', 'C02')), 'dmrg1': (dmrg_singlesite_contract, ('C10', 'C02')),
-             'tdvp2': (lambda: twosite_contract('tdvp'), ('C08', 'C02')), 'dmrg2': (lambda: twosite_contract('dmrg'), ('C10', 'C02'))}
+CONTRACTS = {'tdvp1': (tdvp_singlesite_contract, ('C08', 'C02', 'C09')), 'dmrg1': (dmrg_singlesite_contract, ('C10', 'C02')),
+             'tdvp2': (lambda: twosite_contract('tdvp'), ('C08', 'C02', 'C09')), 'dmrg2': (lambda: twosite_contract('dmrg'), ('C10', 'C02'))}
 
 
 def verify(prop, only=None):
